@@ -36,6 +36,7 @@ ESTIMATORS = ["gaussian", "knn", "kde", "geometric_knn", "poisson"]
 KW = dict(metric="euclidean", k_means=5, bandwidth="silverman")
 ALPHAS = [0.05, 0.1, 0.2]
 NSH = 19
+KEEP_TESTS_PER_TARGET = 5
 P_ALARM = 1e-11          # per statistical test; at most ~25 such tests per run -> < 1e-9 per run
 
 
@@ -199,13 +200,9 @@ def net_task(args):
         tied = len(vals) > 0 and all(np.isfinite(v) for v in vals) and all(v == vals[0] for v in vals)
         sel = sorted(u * L + (lag - 1) for (u, v, lag) in edges if v == i)
         tg.append({"target": i, "n_values": len(vals), "tied": tied, "v0": vals[0] if vals else None, "selected": sel,
-                   "n_tests": len(per[i]["tests"]), "tests": per[i]["tests"][:args_keep(est)]})
+                   "n_tests": len(per[i]["tests"]), "tests": per[i]["tests"][:KEEP_TESTS_PER_TARGET]})
     out["targets"] = tg
     return out
-
-
-def args_keep(est):
-    return 8
 
 
 # --------------------------------------------------------------------------------------------
@@ -258,7 +255,7 @@ def count_pred(af, obs, nulls, passed):
 # --------------------------------------------------------------------------------------------
 def plan(chk):
     q = chk.tier == "quick"
-    n_tests = {"gaussian": 240, "knn": 240, "kde": 120, "geometric_knn": 60, "poisson": 60} if q else \
+    n_tests = {"gaussian": 210, "knn": 210, "kde": 108, "geometric_knn": 60, "poisson": 60} if q else \
               {e: 2000 for e in ESTIMATORS}
     tests, idx = [], 0
     prng = np.random.default_rng([chk.seed, 0])
@@ -272,13 +269,15 @@ def plan(chk):
             tests.append((chk.seed, idx, est, kind, with_z, alpha, T))
             idx += 1
     # networks: (method, estimator, data kind, n, max_lag, alpha, n_shuffles, how many)
-    nets_spec = [("standard", "gaussian", "continuous", 4, 3, 0.05, NSH, 10 if q else 300),
-                 ("alternative", "gaussian", "continuous", 4, 3, 0.05, NSH, 10 if q else 300),
+    nets_spec = [("standard", "gaussian", "continuous", 5, 3, 0.05, NSH, 10 if q else 150),
+                 ("alternative", "gaussian", "continuous", 5, 3, 0.05, NSH, 10 if q else 150),
                  ("standard", "knn", "continuous", 3, 2, 0.05, NSH, 8 if q else 200),
                  ("alternative", "knn", "continuous", 3, 2, 0.05, NSH, 8 if q else 200),
-                 ("alternative", "kde", "continuous", 4, 3, 0.05, NSH, 1 if q else 20),
-                 ("alternative", "geometric_knn", "continuous", 4, 3, 0.05, NSH, 1 if q else 10),
-                 ("alternative", "poisson", "count", 4, 3, 0.05, NSH, 1 if q else 10)]
+                 # slow estimators: heavy-tailed edge counts at level 0.1, so the hard predicate is run at the
+                 # exact size 2/100 (alpha 0.01, 99 shuffles)
+                 ("alternative", "kde", "continuous", 4, 3, 0.01, 99, 1 if q else 20),
+                 ("alternative", "geometric_knn", "continuous", 4, 3, 0.01, 99, 1 if q else 10),
+                 ("alternative", "poisson", "count", 4, 3, 0.01, 99, 1 if q else 10)]
     nets, idx = [], 0
     for (method, est, kind, n, L, alpha, nsh, cnt) in nets_spec:
         for _ in range(cnt):
@@ -317,19 +316,22 @@ def run(chk):
         "frac((n-1)(1-alpha)) <= 2 alpha + 1/n (true for the defaults 0.05/200 and for every setting measured here; false e.g. "
         "for 0.05/50, where the exact size is 4/51)",
         "network level: the number of links a forward/backward run keeps on noise is measured, not bounded by a theorem; the "
-        "hard 'fewer than half' predicate is applied to scenarios whose false-alarm probability was estimated offline (< 1e-12 per network)",
+        "hard 'fewer than half' predicate is applied to scenarios whose false-alarm probability was ESTIMATED offline, not proved "
+        "(4000 simulated noise networks per gaussian scenario: at most 13 of 75 links; 300-1000 per kde/geometric/poisson scenario at "
+        "alpha 0.01 / 99 shuffles: at most 5 of 48; kNN: 0 links in 6000; geometric extrapolation of the tails gives < 1e-12 per network)",
         "estimator values are finite floats (exact rationals, scaled to integers); non-finite estimates are counted and excluded "
         "from the Coq cases, not from the measured rate"]
     tests, nets = plan(chk)
     ctx = mp.get_context("fork")
     procs = max(2, min(16, (os.cpu_count() or 4)))
     with ctx.Pool(procs) as pool:
-        net_async = pool.map_async(net_task, nets, chunksize=1)
+        slow_first = sorted(nets, key=lambda a: (a[3] in ("gaussian", "knn"), a[1]))   # long tasks start first
+        net_async = pool.map_async(net_task, slow_first, chunksize=1)
         test_res = pool.map(test_task, tests, chunksize=4)
-        net_res = net_async.get()
+        net_res = sorted(net_async.get(), key=lambda r: r["idx"])
 
     # ---- (3) the bound, recomputed inside Coq ----------------------------------------------------
-    combos = sorted({(Fraction(a), NSH) for a in ALPHAS} | {(Fraction(0.05), 200), (Fraction(1, 20), 200), (Fraction(1, 20), 50),
+    combos = sorted({(Fraction(a), NSH) for a in ALPHAS} | {(Fraction(x[7]), x[8]) for x in nets} | {(Fraction(0.05), 200), (Fraction(1, 20), 200), (Fraction(1, 20), 50),
                                                               (Fraction(1, 20), 19), (Fraction(1, 10), 19), (Fraction(1, 5), 19)})
     bcases, regimes = [], {}
     for af, n in combos:
@@ -461,7 +463,7 @@ def run(chk):
         if not r["untouched"]:
             chk.count("net.input_modified")
     lib.correspond(chk, "verdict_model_vs_impl", IMPORTS, VERDICT_T, "check_verdict_case", cases, pf, lambda i: desc[i],
-                   shard=400, jobs=12)
+                   shard=120 if chk.tier == "quick" else 400, jobs=12)
     lib.correspond(chk, "tied_landscape_network_model_vs_impl", IMPORTS, TIED_T, "check_tied_case", tcases, tpf,
                    lambda i: tdesc[i], shard=400, jobs=4)
     chk.count("net.tied_targets", len(tcases))
@@ -472,6 +474,10 @@ def run(chk):
         chk.violation("counterexample",
                       f"discover_network on mutually independent noise returned {len(h['edges'])} of {h['candidates']} candidate "
                       f"lagged links (method={h['method']}, estimator={h['estimator']})", h)
+    done = sum(s["runs"] for s in net_stats.values())
+    chk.oblige("coverage", "noise_networks_ran_and_all_tied_landscape_was_exercised",
+               2 * done >= len(nets) and len(tcases) >= 1 and len(cases) >= len(tests) // 2,
+               f"{done} of {len(nets)} discover_network runs completed; {len(tcases)} all-tied targets; {len(cases)} tests replayed in Coq")
     for k, s in net_stats.items():
         s["mean_edge_fraction"] = round(s["edges"] / s["candidates"], 5) if s["candidates"] else None
     chk.extra["noise_networks"] = net_stats
@@ -514,9 +520,10 @@ def run(chk):
         "continuous N(0,1) or Poisson counts (every third test; always for the poisson estimator); Z absent / 1-2 columns, Y "
         "depending on Z in half of the cases; alpha cycles 0.05, 0.1, 0.2; n_shuffles 19; five estimators with the library's "
         "default settings; observed value computed by the same estimator call the selection code uses. Networks: i.i.d. noise, "
-        "T 80..150; gaussian n=4 max_lag=3 (48 candidates) standard and alternative; knn n=3 max_lag=2 standard and alternative "
-        "(the all-tied scenario of finding F1); one kde, one geometric_knn and one poisson (counts) alternative run (more in thorough). "
-        "Every test (stand-alone and inside the networks, up to 8 per target) is replayed in Coq. Distinct = distinct "
+        "T 80..150; gaussian n=5 max_lag=3 (75 candidates; alpha 0.05, 19 shuffles) standard and alternative; knn n=3 max_lag=2 "
+        "standard and alternative (the all-tied scenario of finding F1); one kde, one geometric_knn and one poisson (counts) "
+        "alternative run with n=4 max_lag=3 at alpha 0.01 / 99 shuffles (more in thorough). "
+        "Every test (stand-alone and inside the networks, up to 5 per target) is replayed in Coq. Distinct = distinct "
         "(alpha, surrogate values, observed) or network id.")
 
 
